@@ -4,7 +4,7 @@
 From Coq Require Import Extraction ExtrOcamlBasic.
 From Prtpy Require Import Base.Prelude Base.Perms Model.Binner Model.Objectives Model.Greedy Model.Packing
      Model.Covering Model.KK Model.CG Model.DP Model.CBLDM Model.InExTree Model.SNP Model.BinCompletion
-     Oracle.Reach Oracle.Checkers Model.BinnerHeap Spec.AbsBins Model.Multifit Model.ILP Model.Output Model.BinCompletionNamed Model.BinCompletionTrace.
+     Oracle.Reach Oracle.Checkers Model.BinnerHeap Spec.AbsBins Model.Multifit Model.ILP Model.Output Model.BinCompletionNamed Model.BinCompletionTrace Model.SNPTrace.
 
 Extraction Language OCaml.
 
@@ -33,7 +33,7 @@ Separate Extraction
   Reach.reach Reach.opt_value Reach.min_bins Reach.max_cover Reach.opt_balanced2 Reach.reach_unsorted Reach.pack_states
   Checkers.is_partition_b Checkers.is_packing_b Checkers.nonempty_b Checkers.is_cover_b Checkers.anyfit_b
   Checkers.ascending_b Checkers.wf_b Checkers.same_items_b
-  BinCompletionNamed.bin_completion_named BinCompletionTrace.bin_completion_tr
+  BinCompletionNamed.bin_completion_named BinCompletionTrace.bin_completion_tr SNPTrace.snp_tr SNPTrace.rnp_tr
   Output.extract Output.derive Output.keeps
   ILP.formulate ILP.normalize ILP.decode ILP.feasible_b ILP.objective_value ILP.ilp ILP.ilp_precheck
   Multifit.multifit Multifit.multifit_trace Multifit.ffloor
